@@ -244,6 +244,7 @@ BROKER_ASSUMPTIONS = [
     "outbound ack queues (Pub1ack/Pub2out) have no observable effect in the broker role and are not modelled",
     "packets are compared decoded (field level) with the harness's own reference codec; byte-level codec properties are C03/C04",
     "fan-out order is a Go map order: runs of consecutive PUBLISH packets are compared as multisets; the identifier an in-process callback sees is not compared",
+    "the identifier generated for a client that connects without one (auto- + 96 random bits from crypto/rand) never coincides with a client-supplied identifier or with another generated one: the model represents it by a byte string outside the set of acceptable supplied identifiers",
 ]
 
 
